@@ -45,8 +45,6 @@ def validate_output_conflicts(
         GraphConfigError: If multiple nodes produce the same output and they
             are neither mutex nor ordered.
     """
-    expanded_groups = _expand_mutex_groups(G, nodes)
-
     # Collect outputs that have multiple producers
     contested_outputs = {output: sources for output, sources in output_to_sources.items() if len(sources) > 1}
     if not contested_outputs:
@@ -54,6 +52,7 @@ def validate_output_conflicts(
 
     if explicit_edges:
         # Explicit mode: trust the declared topology directly
+        expanded_groups = _expand_mutex_groups(G, nodes)
         for output, sources in contested_outputs.items():
             for a, b in combinations(sources, 2):
                 if _is_pair_mutex(a, b, expanded_groups):
@@ -73,6 +72,13 @@ def validate_output_conflicts(
 
     # Auto-inference mode: build complete edge map with edges from ALL producers
     node_names, edge_map = _build_full_edge_map(G, nodes, output_to_sources)
+
+    # Branch reachability must follow EVERY producer of a shared name: G only wires
+    # the first one, which would make a consumer look exclusive to that branch.
+    reach = nx.DiGraph()
+    reach.add_nodes_from(node_names)
+    reach.add_edges_from(edge_map)
+    expanded_groups = _expand_mutex_groups(reach, nodes)
 
     for output, sources in contested_outputs.items():
         # Find all outputs contested by THIS set of producers
